@@ -241,3 +241,67 @@ def c19_remove_old_slips(ctx, v):
                             v.fail("remove_old_slips layout=%s: %s" % (layout, what), dict(slip_block_id=m.eval(bids[i].bv, model_completion=True).as_long(), bound=m.eval(bound.bv, model_completion=True).as_long()))
             if not _check(ctx, v, ex, "remove_old_slips layout=%s" % layout, outs, extra=extra):
                 return
+
+
+def c19_reorg_records_ledger_location(ctx, v):
+    """Wallet::on_chain_reorganization(block, lc = true) for a block of two transactions — the
+    first of any type (a lite block's SPV placeholder standing for txs_replacements merged
+    transactions included), the second paying the wallet: the payment is recorded (add_slip)
+    under the block's id and under the transaction ordinal the LEDGER gives it — placeholders
+    count for txs_replacements positions, every other transaction for one (the numbering of
+    Block::generate) — because generate_slips later rebuilds the input's ledger key from exactly
+    these numbers."""
+    body = ctx.body(r"wallet::<impl at [^>]*>::on_chain_reorganization$")
+    ex = ctx.executor(loop_bound=6, inline="auto", max_paths=4000, no_inline=[r"Wallet::add_slip$", r"Wallet::delete_slip$", r"Wallet::remove_old_slips$", r"is_nft$", r"delete_pending_transaction$", r"fmt", r"to_hex"])
+    ex.pure = [r".*"]
+    wkey = ex.fresh_value("[u8; 33]", "wallet.public_key")
+    wallet = ctx.mk_struct(ex, "Wallet", "wallet", public_key=wkey)
+    t0 = ex.fresh_value("TransactionType", "tx0.type")
+    reps = ex.fresh_value("u32", "tx0.txs_replacements")
+    tx0 = ctx.mk_struct(ex, "Transaction", "tx0", **{"from": S.Seq([], "Slip"), "to": S.Seq([], "Slip"), "transaction_type": t0, "txs_replacements": reps})
+    out = L.sym_slip(ctx, ex, "payment")
+    t1 = ex.fresh_value("TransactionType", "tx1.type")
+    tx1 = ctx.mk_struct(ex, "Transaction", "tx1", **{"from": S.Seq([], "Slip"), "to": S.Seq([out], "Slip"), "transaction_type": t1, "txs_replacements": S.const_int(1, "u32")})
+    bid = ex.fresh_value("u64", "block.id")
+    block = ctx.mk_struct(ex, "Block", "block", id=bid, transactions=S.Seq([tx0, tx1], "Transaction"))
+
+    def hook(ex_, st, callee, args, dty):
+        if re.search(r"is_nft$", callee):
+            return z3.BoolVal(False)
+        return None
+    ex.on_call = hook
+    st = S.State()
+    st.pc.extend([L.enum_in_range(t0, L.TX_TYPES), L.enum_in_range(t1, L.TX_TYPES), z3.Not(L.enum_is(ctx, t1, "TransactionType", "SPV")),
+                  value_eq(ex, L.slip_field(ctx, out, "public_key"), wkey), z3.UGT(L.slip_field(ctx, out, "amount").bv, 0)])
+    outs = ex.run(body, [S.Ref(S.Cell(wallet), (), True), S.Ref(S.Cell(block)), z3.BoolVal(True), ex.fresh_value("u64", "genesis_period")], st)
+    v.paths += len(outs)
+    want = z3.If(L.enum_is(ctx, t0, "TransactionType", "SPV"), z3.ZeroExt(32, reps.bv), z3.BitVecVal(1, 64))
+    n = 0
+    for o in outs:
+        if o.kind in ("unsupported", "unwound", "path-limit"):
+            return v.undecided("%s %s" % (o.kind, o.info))
+        if o.kind == "panic":
+            L.report_panic(v, ex, o, "Wallet::on_chain_reorganization panics: %s" % o.info)
+            continue
+        if o.kind != "return":
+            continue
+        adds = [e for e in o.events if e[0] == "call" and re.search(r"Wallet::add_slip$", e[1])]
+        v.queries += 1
+        if len(adds) != 1:
+            if ex.feasible(o.pc):
+                L.fail_structural(v, o, "a payment to the wallet in a wound block is recorded %d times" % len(adds))
+            continue
+        a = adds[0][2]
+        got_block, got_ord = a[1], a[2]
+        r, m = ex.model_for(o.pc, z3.Or(got_block.bv != bid.bv, got_ord.bv != want))
+        v.queries += 1
+        if r == z3.sat:
+            ev = lambda x: m.eval(x, model_completion=True).as_long()
+            L.fail_structural(v, o, "the wallet records a received output under location %d-%d although the ledger holds it at %d-%d (first transaction of the block: %s with txs_replacements %d)" % (
+                ev(got_block.bv), ev(got_ord.bv), ev(bid.bv), ev(want), "an SPV placeholder" if z3.is_true(m.eval(L.enum_is(ctx, t0, "TransactionType", "SPV"), model_completion=True)) else "an ordinary transaction", ev(reps.bv)))
+        elif r == z3.unsat:
+            n += 1
+        else:
+            return v.undecided("solver: no verdict")
+    v.covers_total += 1
+    v.covers_sat += 1 if n else 0
